@@ -3,6 +3,11 @@ import json, os
 V = '/verif'
 PENDING = "check not built yet in this session (work in progress; see DESIGN.md §12)"
 CHECKS = {
+ "C12": dict(
+    text="Lean theorems for any score function, node list, key list and stores: C12_route_is_placement/_unique, C12_batches_partition_keys / C12_batches_exact (each key is in exactly the batch of its routed server, order and multiplicity preserved, nothing dropped), C12_getMany_eq_gets (+ counterexample for colliding inner keys), C12_written_is_found, C12_setMany_found, C12_setMany_then_getMany, C12_no_server_all_skipped. Tied to /repo by per-server command logs of reference memcached servers behind one fake socket module for 1..5 servers (TCP/UNIX), key sets 0..50 (str, bytes, (server_key, key) pairs), prefixes, pooling on/off and every key-addressed operation: placement recomputed independently with murmur3, each key exactly once at its server, get_many = per-key gets, written keys found; the grouping is compared with HashRoute.batchesOf.",
+    note="Lean kernel + standard axioms; the rotation is fixed during one call (failover is C13); servers are abstract stores (C05).",
+    technique="Lean 4 proof (fold invariants over the batching dictionary) + per-server command-log correspondence",
+    ref="§6 C12"),
  "C13": dict(
     text="Lean theorems over the full multi-server timed failover machine (all histories of calls, failures and clock values, any number of servers, rt<dt): C13_le_two_per_rt_window, C13_le_ra_plus_two_per_dt_window (+ sliding form), C13_single_failure_keeps_rotation, C13_no_internal_error, C13_healthy_never_bypassed, C13_rerouted_while_out, C13_only_server_error_or_all_down_escapes, C13_nothing_escapes_with_ignore_exc, C13_recovery, C13_recovery_placement; the set_many+ignore_exc defect is proved as a counterexample and excluded by hypothesis (open finding). Tied to /repo by breadth-first exploration (state de-duplication) of the real HashClient with scripted clients and a virtual clock, every step compared with the model, plus a sliding-window monitor on the real contact log.",
     note="partial: integer ticks constant during a call; 'failing' = OSError; routing abstracted to a preference order (rendezvous choice is C11/C12); broadcast ops (flush_all/stats/quit) are outside the property (key-addressed calls) — see DESIGN.md findings.",
@@ -13,6 +18,11 @@ CHECKS = {
     note="Lean kernel + propext/Classical.choice/Quot.sound; the hand-written model murmurPy is tied by differential runs only; strings < 2^32 code points; CPython int semantics.",
     technique="Lean 4 proof (refinement of unbounded-int arithmetic to BitVec 32 by induction over blocks) + model/implementation correspondence",
     ref="§6 C14"),
+ "C01": dict(
+    text="Lean theorems over the transliterated exchange paths and Client.call for arbitrary scripts (chunking, EINTR, faults at any recv, connect/send faults, adversarial reply content): C01_error_closes_loops/_exchange/_call (any error closes the socket; only int()/VERSION post-processing errors leave it open, after a completed exchange), C01_noreply_never_reads, C01_store/_misc/_fetch_consumes_exactly (a reply-expecting exchange consumes exactly its reply units or closes), C01_fetch_fuel_never_runs_out, C01_call_clean, C01_sequence_clean, C01_own_bytes_only / C01_no_foreign_bytes (every data byte consumed by call k was provoked by call k), fault-tolerant versions (C01_call_clean_faults, C01_own_bytes_only_faults, C01_nothing_after_a_fault_matters) and C01_model_server_is_framed / C01_reference_server_answers_what_is_owed (the framing assumption is met by the memcached model). Tied to /repo by a byte-tag oracle on the fake socket over sequences [warm-up] + [any of 27 operations under every adversary script: 8 reply mutations, connect/send faults, 5 recv fault kinds x positions] + follow-ups on Client, PooledClient and HashClient (1-2 servers, pooled), plus random multi-fault sequences; Client runs are compared call by call with the Lean Client.call under the same script (result, socket state, bytes sent, bytes left unread).",
+    note="partial: the network is abstracted to a per-connection pipe (late delivery = bytes stay in the pipe of that connection; a new connection starts empty); framing assumption: one reply unit per reply-expecting command (grammar in Model/Framing.lean); stats/cache_memlimit/shutdown are covered at loop level only; PooledClient/HashClient are covered by the monitor and by C08/C09/C12/C13, not by a wrapper-level theorem.",
+    technique="Lean 4 proof (invariant 'open socket at a call boundary => nothing unread', by induction over reader steps and call sequences) + byte-tag monitor + per-call model correspondence",
+    ref="§6 C01"),
  "C02": dict(
     text="Lean theorems C02_parse_storeCmd / C02_parse_encode_store / _fetch / _delete_many / _arith / _touch / _flush prove that for every legal argument tuple (any key accepted by check_key with non-empty wire form, ANY data bytes of any length, any integers in range) the bytes built exactly as the client builds them are read by an independent strict parser as exactly the intended request(s) with nothing left over; C02_illegal_key_sends_nothing, C02_non_integer_rejected, C02_bad_cas_rejected cover the rejections; C02_empty_key_counterexample proves the open finding. Tied to /repo by parsing the bytes the real client passes to sendall() with the Lean strict parser and comparing with the intent computed from the arguments, plus model/implementation comparison of sent bytes.",
     note="Lean kernel + standard axioms; strict parser and intent are my reading of protocol.txt; encoding assumed ASCII-compatible; bool/negative flags outside the quantifier; two open findings (empty key — pinned by a repo test; gat(expire=None)).",
@@ -43,11 +53,26 @@ CHECKS = {
     note="partial: interleaving granularity is the source line (opcodes sampled), the GIL and threading.Lock are trusted; the scheduler is search support and trace source, not a proof; open finding C08-clear-vs-holder.",
     technique="Lean 4 proof (18-conjunct inductive invariant over micro-steps, deadlock-freedom) + trace correspondence + bounded deterministic scheduling of the real code",
     ref="§6 C08"),
+ "C09": dict(
+    text="Lean theorems over the sequential pool model with connections as separate ids (all configs, all histories of calls with any body outcome — ok, failed, failure swallowed by ignore_exc, rejected before I/O, quit — and any times): C09_used_zero_after_call, C09_never_exhausts, C09_failed_conn_never_reused / C09_closed_conn_never_used, C09_rejected_conn_closed, C09_healthy_reused, C09_idle_expired_closed (reuse happens exactly when idle <= timeout), C09_closed_at_most_once, C09_no_leak. Tied to /repo by running the real PooledClient over the fault-plan socket with a patched pool clock (exhaustive 1-2(3)-call sequences over 7 ops x 8 faults x 4 gaps, random up to 10 calls; max_pool_size 1/2/None, idle timeout 0/10, ignore_exc on/off): pool.used, socket ledger and reuse judged directly, and the (pooled client, connection) that served each call, the idle set and the order of closes compared with the model.",
+    note="Lean kernel + standard axioms; one timestamp per call; integer ticks; a connection = a successfully connected socket; concurrency is C08.",
+    technique="Lean 4 proof (8-field inductive invariant over call histories) + correspondence + ledger monitor",
+    ref="§6 C09"),
  "C11": dict(
     text="Lean theorems (C11_getNode_eq_some_iff, C11_getNode_set_ext/perm, C11_getNode_history_indep, C11_remove_moves_only_owner, C11_add_moves_only_to_new, spelling equivalences) hold for an arbitrary score function (so also under forced ties), any node list and any add/remove history; tied to /repo by differential runs of RendezvousHash.get_node against the model (murmur, constant and two-valued hashes), all permutations of small node sets, random histories, HashClient through the client_class seam with equivalent spellings, and fresh interpreters with different PYTHONHASHSEED. 'Spread' is measured, not proved.",
     note="Lean kernel + standard axioms; score is a parameter (murmur3 correctness is C14); str order = code-point order; spelling equivalence modelled for the constructor path and decimal ports; spread is statistical (partial).",
     technique="Lean 4 proof (fold invariant: winner = lexicographic maximum of (score, name)) + correspondence + metamorphic relations",
     ref="§6 C11"),
+ "C15": dict(
+    text="Lean theorems for every value (bytes, str, int of any size, other), every codec satisfying the left-inverse laws and every threshold: C15_serde_roundtrip, C15_compressed_roundtrip, C15_flags_lt_65536 / C15_flags_values, C15_payload_transmittable, C15_compressed_flag_iff_stored_compressed / _iff_branch, C15_stored_not_larger, C15_threshold_zero_or_small_is_identity, C15_cascade_order. Tied to /repo by a recursive value corpus (incl. ints with thousands of digits and sizes straddling every threshold, bool/None/float/containers/subclasses/objects) x pickle protocols 0..5 x 5 codecs x 4 thresholds: equality and exact type, transmittable payload, flags, compression marking and size judged on the real serializers; flags / payload kind / compression decision compared with the model.",
+    note="partial: pickle, UTF-8 and the compression codecs are parameters with left-inverse hypotheses (exercised, not proved); ints within CPython's int/str digit limit (4300); str without lone surrogates.",
+    technique="Lean 4 proof (flag algebra and decision logic under codec laws; decimal round trip) + correspondence",
+    ref="§6 C15"),
+ "C16": dict(
+    text="Lean theorems over tables re-extracted from the source on every run (inspect.signature of every key-addressed method of Client/PooledClient/HashClient, the AST of every PooledClient method's inner call and of _create_client, HashClient.default_kwargs): C16_pooled_signatures_eq_client, C16_pooled_forwarding_wellformed, C16_hash_signatures_compatible, C16_pooled_ctor_forwards_shared_options, C16_hash_ctor_forwards_shared_options, C16_pooled_ctor_accepts_client_options (+ the general binding theorem). Tied to /repo additionally by running every method x argument grid x configuration grid (prefix, default_noreply, encoding, unicode keys, serializer, timeouts) x server state on a plain Client and on 5 wrapper stacks against identical reference servers and comparing command streams, socket timeouts and results.",
+    note="Lean kernel + standard axioms; the translator (harness/gen_consts.py) is part of the trusted base; RetryingClient forwards through __getattr__ (*args, **kwargs) and is covered behaviourally; single-server HashClient.",
+    technique="Lean 4 proof over a model regenerated from the source by a translator + exhaustive grid comparison of the stacks with Client",
+    ref="§6 C16"),
  "C17": dict(
     text="Lean theorem C17_retry_spec characterises, for every attempts >= 1, every retry_for/do_not_retry_for lists, every subclass relation and every outcome script, the number of invocations and sleeps and the returned value / re-raised exception of the transliterated _retry loop (plus C17_validate_spec for the constructor); the model is tied to /repo by an exhaustive differential run (attempts 1..3(4) x all outcome sequences x all 256 class-list pairs) and a model-independent monitor on the call/sleep log.",
     note="Lean kernel + standard axioms; isinstance abstracted to a subclass relation; hand-written model tied by differential runs; sleep observed by patching retrying.sleep.",
@@ -58,6 +83,11 @@ CHECKS = {
     note="Lean kernel + standard axioms; caches are scripted objects; model tied by exhaustive differential run within the enumerated bound.",
     technique="Lean 4 proof (induction over the cache list) + exhaustive correspondence",
     ref="§6 C18"),
+ "C19": dict(
+    text="Lean theorems for any node list, both use_vpc values and any reconfiguration history: C19_parse_render_nodes (+ steps), C19_discover_chunking_independent / C19_raw_command_returns_segment (any split of the reply, through C03), C19_rotation_eq_advertised / _after_history / _eq_rendered, C19_routes_into_advertised(_rendezvous), C19_removed_nodes_closed, C19_no_client_leaks; the pre-fix scale-down defect and the unrecognised ERROR endpoint are proved as counterexamples. Tied to /repo by running the real AWSElastiCacheHashClient over a multi-server fake socket module that serves 'config get cluster' with randomly split replies through scale-up/scale-down/replacement histories with a key corpus after each step (per-node command logs, socket ledger), and by feeding the actual reply bytes and histories to the Lean parser / reconfigure model.",
+    note="Lean kernel + standard axioms; clean host names; open finding C19-error-endpoint-not-recognised (ERROR answer is awaited until timeout instead of raising MemcacheUnknownCommandError).",
+    technique="Lean 4 proof (parse∘render = id via first-occurrence lemmas; set-level rotation invariant over histories) + co-simulation",
+    ref="§6 C19"),
  "C20": dict(
     text="Lean theorem C20_checkKey_iff_legal(_incl_empty): for every key (str/bytes of any length), prefix and unicode setting, the transliterated check_key_helper accepts with wire form w iff w = prefix + encoding, |w| <= 250 and w has none of the seven forbidden bytes; plus UTF-8 lemmas and proved counterexamples for the pre-fix code. Tied to /repo by exhaustive short keys over byte classes, every byte at several positions, all boundary lengths with multi-byte UTF-8, on check_key_helper, Client, PooledClient and HashClient, with an independent Python statement of the rule as monitor.",
     note="Lean kernel + standard axioms; bytes.split() and UTF-8 encoding are transliterated and differentially tested against CPython; str keys without lone surrogates.",
